@@ -5,10 +5,16 @@
    is the old one with exactly these writes applied).  `prefix_disk ws k d` is the medium after
    the first k writes; every theorem quantifies over every k.
    Sections: 1 prefix disks; 2 sequences of FAT updates and data writes, the shape of every
-   prefix (both FAT copies); 3 chains; 4 alloc_cluster; 5 data blocks (C09 frame);
-   6 truncate / free; 7 examples; 8 assumptions. *)
+   prefix (both FAT copies: crash_general); 3 chains; 4 alloc_cluster; 5 data blocks (C09
+   frame); 6 truncate / free, C09 frame in terms of file contents; 6b make_dir (order of block
+   numbers only); 7 examples; 8 assumptions.
+   The chain statements are about the FIRST FAT copy (the one next_cluster reads, PrDir.chain_of);
+   the second copy is described entry by entry: it reads as the first copy did at the same or
+   at the previous FAT update (never ahead, at most one update behind), so it passes through
+   the same stages. *)
 From Coq Require Import NArith ZArith List Bool Lia Arith ZifyClasses ZifyInst Zify FMapPositive.
 From SdFs Require Import FsTypes FsBase FsFat FsMgr FsLemmas PrBase PrFat PrAlloc PrDir PrAllocEffect PrChain.
+From SdFs Require PrRw PrOrder.
 Import ListNotations.
 Open Scope N_scope.
 Local Arguments N.mul : simpl never.
@@ -852,3 +858,721 @@ Proof.
     + rewrite (HE c (HinF c C2)) in Ex. cbn [alloc_stage] in Ex. lia.
     + rewrite (Hc1 ltac:(lia)), enc_eof in Ex. unfold fat_fits, fat_bad in Hfit. destruct (v_fat32 v); lia.
 Qed.
+
+(* ---- C10, alloc_cluster behind the last cluster p of a chain: EVERY prefix ---- *)
+Lemma alloc_pre_disk s vi v fsz : alloc_pre s vi v fsz -> fat_layout v fsz /\ fat_len_ok v fsz (s_disk s).
+Proof. intros ((_ & _ & _ & Hlen) & L & _). split; [exact L|exact Hlen]. Qed.
+
+(* If the device stops accepting writes after any k block writes of a successful
+   alloc_cluster vi (Some p) zero (p the last cluster of the chain pre ++ [p] starting at c0),
+   the medium Dk satisfies, with n0 / n1 the stages of the two FAT copies:
+   (a) every chain that does not pass through p is read exactly as before;
+   (b) the chain through p is read as before (stage <= 1), or as before followed by c
+       (stage 2) - never an error, never a cycle, never through a free, bad or out-of-range
+       cluster (chain_of_sound for Dk);
+   (c) in the second case, with zeroing, all blocks of c are zero: the cluster is zeroed
+       BEFORE it becomes reachable;
+   (d) entry c is 0 or end-of-chain; an in-range entry that refers to c either did so before
+       the operation or is p's; a chain of Dk that contains c starts at c or contains p
+       (given that no entry referred to the free cluster c before). *)
+Theorem C10_alloc_prefix_chains vi v fsz p zero s c s' pre c0 fuel :
+  alloc_pre s vi v fsz -> fat_fits v ->
+  chain_of (s_disk s) v c0 fuel = Some (pre ++ [p]) ->
+  alloc_cluster vi (Some p) zero s = (Ok c, s') ->
+  let D := s_disk s in
+  let ws := alloc_writes v D (Some p) zero c in
+  tr_ext s s' ws /\
+  2 <= c /\ c < v_clusters v + 2 /\ fat_get D v 0 c = 0 /\ ~ In c (pre ++ [p]) /\
+  forall k, let Dk := prefix_disk ws k D in
+  exists n0 n1,
+    (n1 <= n0 /\ n0 <= n1 + 1 /\ n0 <= 2)%nat /\
+    (forall x, in_fat v fsz x -> fat_get Dk v 0 x = alloc_stage v D c (Some p) n0 x) /\
+    (fat_mirrored D v fsz ->
+       forall x, in_fat v fsz x -> fat_get Dk v 1 x = alloc_stage v D c (Some p) n1 x) /\
+    (* a *)
+    (forall c1 f1 ch1, chain_of D v c1 f1 = Some ch1 -> ~ In p ch1 -> chain_of Dk v c1 f1 = Some ch1) /\
+    (* b, c *)
+    (((n0 <= 1)%nat /\ chain_of Dk v c0 fuel = Some (pre ++ [p])) \/
+     (n0 = 2%nat /\ chain_of Dk v c0 (S fuel) = Some (pre ++ [p; c]) /\
+      (zero = true -> forall b, In b (cluster_blocks v c) -> disk_get Dk b = zero_block))) /\
+    (* d *)
+    ((n0 = 0%nat /\ fat_get Dk v 0 c = 0) \/ ((1 <= n0)%nat /\ fat_get Dk v 0 c = enc v CL_EOF)) /\
+    (forall x, 2 <= x -> x < v_clusters v + 2 -> fat_get Dk v 0 x = c ->
+       fat_get D v 0 x = c \/ (n0 = 2%nat /\ x = p)) /\
+    ((forall x, 2 <= x -> x < v_clusters v + 2 -> fat_get D v 0 x <> c) ->
+     forall c1 f1 ch1, chain_of Dk v c1 f1 = Some ch1 -> In c ch1 -> c1 = c \/ (n0 = 2%nat /\ In p ch1)).
+Proof.
+  intros Hpre Hfit Hch Hrun D ws.
+  destruct (alloc_pre_disk s vi v fsz Hpre) as (L & Hlen).
+  pose proof (chain_of_sound (s_disk s) v fuel c0 _ Hch) as Hsound.
+  assert (Hp : In p (pre ++ [p])) by (apply in_app_iff; right; left; reflexivity).
+  destruct (Hsound p Hp) as (P1 & P2 & _).
+  assert (Hprev : forall q, Some p = Some q -> q < v_clusters v + 2) by (intros q E; inversion E; subst; exact P2).
+  pose proof (alloc_cluster_effect vi v fsz (Some p) zero s c s' Hpre Hprev Hrun) as Heff.
+  destruct (ae_range _ _ _ _ _ _ _ _ Heff) as (C1 & C2 & Hfree).
+  split; [exact (ae_trace _ _ _ _ _ _ _ _ Heff)|].
+  split; [exact C1|]. split; [exact C2|]. split; [exact Hfree|].
+  split; [exact (free_not_in_chain _ _ _ _ _ _ Hch Hfree)|].
+  intros k Dk.
+  assert (Hq : in_fat v fsz c) by exact (layout_sector v fsz c L C2).
+  assert (Hqp : forall q, Some p = Some q -> in_fat v fsz q)
+    by (intros q E; exact (layout_sector v fsz q L (Hprev q E))).
+  destruct (alloc_prefix_fat v fsz D (Some p) zero c k L Hlen C1 Hq Hqp)
+    as (n0 & n1 & (O1 & O2) & O3 & _ & G0 & G1 & Gz & _ & _ & _).
+  fold ws in G0, G1, Gz. fold Dk in G0, G1, Gz.
+  destruct (alloc_stage_chains v fsz D Dk c p pre c0 fuel n0 L Hfit C1 C2 Hfree Hch O3 G0)
+    as (Ha & Hb1 & Hb2 & Hd0 & Hd1 & Hd2).
+  exists n0, n1. split; [lia|]. split; [exact G0|]. split; [exact G1|]. split; [exact Ha|].
+  split.
+  { destruct (le_lt_dec n0 1) as [Hn|Hn]; [left; split; [exact Hn|exact (Hb1 Hn)]|].
+    assert (E2 : n0 = 2%nat) by lia. right. split; [exact E2|]. split; [exact (Hb2 E2)|exact (Gz E2)]. }
+  split.
+  { destruct n0 as [|n0]; [left; split; [reflexivity|exact (Hd0 eq_refl)]|right; split; [lia|apply Hd1; lia]]. }
+  split; [exact Hd2|].
+  intros Hnoref c1 f1 ch1 H1 Hin.
+  destruct (chain_reaches Dk v c f1 c1 ch1 H1 Hin) as [E|(x & Hx & Ex)]; [left; exact E|].
+  destruct (chain_of_sound Dk v f1 c1 ch1 H1 x Hx) as (X1 & X2 & _).
+  destruct (Hd2 x X1 X2 Ex) as [Eold|(E2 & ->)]; [exfalso; exact (Hnoref x X1 X2 Eold)|].
+  right. split; [exact E2|exact Hx].
+Qed.
+
+(* the same for a cluster that starts a new chain (prev = None): all chains are untouched at
+   every prefix; c is free or a one-cluster chain; nothing refers to it *)
+Theorem C10_alloc_prefix_chains_first vi v fsz zero s c s' :
+  alloc_pre s vi v fsz -> fat_fits v ->
+  alloc_cluster vi None zero s = (Ok c, s') ->
+  let D := s_disk s in
+  let ws := alloc_writes v D None zero c in
+  tr_ext s s' ws /\ 2 <= c /\ c < v_clusters v + 2 /\ fat_get D v 0 c = 0 /\
+  forall k, let Dk := prefix_disk ws k D in
+    (forall c1 f1 ch1, chain_of D v c1 f1 = Some ch1 -> chain_of Dk v c1 f1 = Some ch1) /\
+    (fat_get Dk v 0 c = 0 \/ (fat_get Dk v 0 c = enc v CL_EOF /\ chain_of Dk v c 1 = Some [c])) /\
+    (forall x, 2 <= x -> x < v_clusters v + 2 -> fat_get Dk v 0 x = c -> fat_get D v 0 x = c) /\
+    (forall j, non_fat v fsz j -> ~ In j (cluster_blocks v c) -> disk_get Dk j = disk_get D j).
+Proof.
+  intros Hpre Hfit Hrun D ws.
+  destruct (alloc_pre_disk s vi v fsz Hpre) as (L & Hlen).
+  assert (Hprev : forall q, @None N = Some q -> q < v_clusters v + 2) by (intros q E; discriminate E).
+  pose proof (alloc_cluster_effect vi v fsz None zero s c s' Hpre Hprev Hrun) as Heff.
+  destruct (ae_range _ _ _ _ _ _ _ _ Heff) as (C1 & C2 & Hfree).
+  split; [exact (ae_trace _ _ _ _ _ _ _ _ Heff)|].
+  split; [exact C1|]. split; [exact C2|]. split; [exact Hfree|].
+  intros k Dk.
+  assert (Hq : in_fat v fsz c) by exact (layout_sector v fsz c L C2).
+  assert (Hqp : forall q, @None N = Some q -> in_fat v fsz q) by (intros q E; discriminate E).
+  destruct (alloc_prefix_fat v fsz D None zero c k L Hlen C1 Hq Hqp)
+    as (n0 & n1 & _ & _ & O3 & G0 & _ & _ & Gf & _ & _).
+  fold ws in G0, Gf. fold Dk in G0, Gf. specialize (O3 eq_refl).
+  destruct (alloc_stage_chains_first v fsz D Dk c n0 L Hfit C1 C2 Hfree O3 G0) as (Ha & Hd0 & Hd1 & Hd2).
+  split; [exact Ha|]. split; [|split; [exact Hd2|exact Gf]].
+  destruct n0 as [|n0]; [left; exact (Hd0 eq_refl)|right; apply Hd1; lia].
+Qed.
+
+(* ================================================================== 5. data blocks (C09 frame) *)
+(* every write of alloc_cluster targets a FAT sector or - zeroing - a block of the NEW cluster
+   c, which was free and therefore in no chain.  For every prefix: every block outside the FAT
+   and outside cluster c is unchanged, in particular every block of every other data cluster
+   and hence of every chain of the old medium *)
+Theorem C09_frame_alloc vi v fsz prev zero s c s' :
+  alloc_pre s vi v fsz -> (forall p, prev = Some p -> p < v_clusters v + 2) ->
+  alloc_cluster vi prev zero s = (Ok c, s') ->
+  let D := s_disk s in
+  let ws := alloc_writes v D prev zero c in
+  tr_ext s s' ws /\
+  forall k, let Dk := prefix_disk ws k D in
+    (forall j, non_fat v fsz j -> ~ In j (cluster_blocks v c) -> disk_get Dk j = disk_get D j) /\
+    (forall x b, 2 <= x -> x <> c -> In b (cluster_blocks v x) -> disk_get Dk b = disk_get D b) /\
+    (forall c1 f1 ch1, chain_of D v c1 f1 = Some ch1 ->
+       forall x b, In x ch1 -> In b (cluster_blocks v x) -> disk_get Dk b = disk_get D b).
+Proof.
+  intros Hpre Hprev Hrun D ws.
+  destruct (alloc_pre_disk s vi v fsz Hpre) as (L & Hlen).
+  pose proof (alloc_cluster_effect vi v fsz prev zero s c s' Hpre Hprev Hrun) as Heff.
+  destruct (ae_range _ _ _ _ _ _ _ _ Heff) as (C1 & C2 & Hfree).
+  split; [exact (ae_trace _ _ _ _ _ _ _ _ Heff)|].
+  intros k Dk.
+  assert (Hq : in_fat v fsz c) by exact (layout_sector v fsz c L C2).
+  assert (Hqp : forall q, prev = Some q -> in_fat v fsz q)
+    by (intros q E; exact (layout_sector v fsz q L (Hprev q E))).
+  destruct (alloc_prefix_fat v fsz D prev zero c k L Hlen C1 Hq Hqp)
+    as (n0 & n1 & _ & _ & _ & _ & _ & _ & Gf & _ & _).
+  fold ws in Gf. fold Dk in Gf.
+  assert (Hcl : forall x b, 2 <= x -> x <> c -> In b (cluster_blocks v x) -> disk_get Dk b = disk_get D b).
+  { intros x b X1 Xc Hb. apply Gf; [exact (cluster_block_non_fat v fsz x b L X1 Hb)|].
+    exact (cluster_blocks_apart v x c b Xc X1 C1 Hb). }
+  split; [exact Gf|]. split; [exact Hcl|].
+  intros c1 f1 ch1 H1 x b Hx Hb.
+  destruct (chain_of_sound D v f1 c1 ch1 H1 x Hx) as (X1 & _ & X3 & _).
+  apply (Hcl x b X1); [|exact Hb]. intros ->. contradiction.
+Qed.
+
+(* ================================================================== 6. truncate / free *)
+(* a sequence of FAT updates (PrChain.fat_updates) as steps *)
+Definition fops (us : list (N * N)) : list wop := map (fun yx => WFat (fst yx) (snd yx)) us.
+
+Lemma fat_updates_ops v : forall us d, fat_updates v d us = op_ws v d (fops us).
+Proof.
+  induction us as [|[y x] us IH]; intros d; [reflexivity|].
+  cbn [fat_updates fops map op_ws fst snd]. cbv zeta. fold (upd_ws v d y x). rewrite IH. reflexivity.
+Qed.
+
+Lemma fops_ok v fsz us : Forall (fun yx => in_fat v fsz (fst yx)) us -> Forall (op_ok v fsz) (fops us).
+Proof.
+  intros H. unfold fops. rewrite Forall_map. rewrite Forall_forall in *. intros yx Hin. exact (H yx Hin).
+Qed.
+
+Lemma fops_data us : data_ws (fops us) = [].
+Proof. induction us as [|yx us IH]; [reflexivity|exact IH]. Qed.
+
+(* entry x after the updates us when it was e before *)
+Definition upd_after (v : vol) (us : list (N * N)) (x e : N) : N := ent_after v (fops us) x e.
+
+(* EVERY PREFIX of a sequence of FAT updates: the first copy reads as after the first j0
+   updates, the second (when the copies were identical) as after the first j1, with
+   j1 <= j0 <= j1 + 1; no block outside the FAT changes *)
+Theorem fat_updates_prefix v fsz D us k :
+  fat_layout v fsz -> fat_len_ok v fsz D -> Forall (fun yx => in_fat v fsz (fst yx)) us ->
+  let Dk := prefix_disk (fat_updates v D us) k D in
+  exists j0 j1,
+    (j1 <= j0 /\ j0 <= j1 + 1 /\ j0 <= length us)%nat /\
+    (forall x, in_fat v fsz x -> fat_get Dk v 0 x = upd_after v (firstn j0 us) x (fat_get D v 0 x)) /\
+    (fat_mirrored D v fsz ->
+       forall x, in_fat v fsz x -> fat_get Dk v 1 x = upd_after v (firstn j1 us) x (fat_get D v 0 x)) /\
+    (forall j, non_fat v fsz j -> disk_get Dk j = disk_get D j) /\
+    fat_len_ok v fsz Dk.
+Proof.
+  intros L Hlen Hus Dk. unfold Dk. rewrite fat_updates_ops.
+  pose proof (fops_ok v fsz us Hus) as Hok.
+  destruct (crash_general v fsz L (fops us) D k Hok Hlen)
+    as (j1 & j0 & ws' & C1 & C2 & C3 & G0 & G1 & G2 & G3).
+  exists j0, j1. unfold fops in C2. rewrite map_length in C2.
+  split; [destruct C1 as [->|(-> & _)]; lia|].
+  assert (Ef : forall j, firstn j (fops us) = fops (firstn j us)) by (intros j; apply firstn_map).
+  rewrite Ef in G0, G1. unfold upd_after.
+  split; [exact G0|]. split; [exact G1|]. split; [|exact G3].
+  intros j Hj. apply (crash_frame v fsz (fops us) D k j L Hok Hlen Hj).
+  rewrite fops_data. intros [].
+Qed.
+
+(* ---- the entries after a prefix of the updates of truncate / free ---- *)
+Lemma existsb_In x l : existsb (N.eqb x) l = true <-> In x l.
+Proof.
+  rewrite existsb_exists. split.
+  - intros (y & Hy & E). apply N.eqb_eq in E. subst y. exact Hy.
+  - intros H. exists x. split; [exact H|apply N.eqb_refl].
+Qed.
+
+Lemma existsb_notIn x l : ~ In x l -> existsb (N.eqb x) l = false.
+Proof.
+  intros H. destruct (existsb (N.eqb x) l) eqn:E; [|reflexivity].
+  apply existsb_In in E. contradiction.
+Qed.
+
+Lemma upd_after_freeing v l : forall x e,
+  upd_after v (freeing l) x e = if existsb (N.eqb x) l then 0 else e.
+Proof.
+  unfold upd_after. induction l as [|a l IH]; intros x e; [reflexivity|].
+  cbn [freeing map fops ent_after fst snd existsb]. fold (freeing l). fold (fops (freeing l)).
+  rewrite IH. destruct (x =? a); cbn [orb]; [|reflexivity].
+  rewrite enc_empty. destruct (existsb (N.eqb x) l); reflexivity.
+Qed.
+
+Lemma firstn_freeing m l : firstn m (freeing l) = freeing (firstn m l).
+Proof. unfold freeing. apply firstn_map. Qed.
+
+Lemma freeing_app a b : freeing (a ++ b) = freeing a ++ freeing b.
+Proof. unfold freeing. apply map_app. Qed.
+
+(* after the first S m updates of  c := end-of-chain; l := free (in order): the first m
+   clusters of l are free, c is the end of its chain (unless it has been freed as well) *)
+Lemma upd_after_cut v c l m x e :
+  upd_after v (firstn (S m) ((c, CL_EOF) :: freeing l)) x e
+  = if existsb (N.eqb x) (firstn m l) then 0 else if x =? c then enc v CL_EOF else e.
+Proof.
+  cbn [firstn]. rewrite firstn_freeing.
+  change (upd_after v ((c, CL_EOF) :: freeing (firstn m l)) x e)
+    with (upd_after v (freeing (firstn m l)) x (if x =? c then enc v CL_EOF else e)).
+  apply upd_after_freeing.
+Qed.
+
+Lemma skipn_In {A} (l : list A) : forall m x, In x (skipn m l) -> In x l.
+Proof.
+  induction l as [|a l IH]; intros [|m] x H; cbn in H; try contradiction; try exact H.
+  right. exact (IH m x H).
+Qed.
+
+Lemma nodup_firstn_skipn (l : list N) m y : NoDup l -> In y (skipn m l) -> ~ In y (firstn m l).
+Proof.
+  revert m. induction l as [|a l IH]; intros [|m] Hnd Hs; cbn [firstn skipn] in *;
+    try (intros H0; exact H0).
+  inversion Hnd as [|? ? Hni Hnd']; subst. intros [->|Hf].
+  - apply Hni. exact (skipn_In _ _ _ Hs).
+  - exact (IH m Hnd' Hs Hf).
+Qed.
+
+Lemma in_fat_chain v fsz d c f l : fat_layout v fsz -> chain_of d v c f = Some l ->
+  Forall (fun yx : N * N => in_fat v fsz (fst yx)) (freeing l).
+Proof.
+  intros L H. unfold freeing. rewrite Forall_map. cbn [fst].
+  pose proof (chain_of_range d v f c l H) as Hr. rewrite Forall_forall in *. intros y Hy.
+  exact (layout_sector v fsz y L (proj2 (Hr y Hy))).
+Qed.
+
+(* ---- the core: media whose first FAT copy is at some stage of  c := EOF; l := free ---- *)
+(* l is rest (truncate) or rest ++ [c] (free) *)
+Lemma cut_stage_chains v fsz D E c rest fuel (l : list N) j0 :
+  fat_layout v fsz -> chain_of D v c fuel = Some (c :: rest) ->
+  (l = rest \/ l = rest ++ [c]) ->
+  (forall x, in_fat v fsz x ->
+     fat_get E v 0 x = upd_after v (firstn j0 ((c, CL_EOF) :: freeing l)) x (fat_get D v 0 x)) ->
+  (* chains disjoint from c :: rest are untouched, and so are all entries outside *)
+  (forall x, in_fat v fsz x -> ~ In x (c :: rest) -> fat_get E v 0 x = fat_get D v 0 x) /\
+  (forall c1 f1 ch1, chain_of D v c1 f1 = Some ch1 -> (forall x, In x ch1 -> ~ In x (c :: rest)) ->
+     chain_of E v c1 f1 = Some ch1) /\
+  (* the chain from c *)
+  (chain_of E v c fuel = Some (c :: rest) \/
+   (chain_of E v c 1 = Some [c] /\ fat_get E v 0 c = enc v CL_EOF /\
+    exists m, (m <= length rest)%nat /\
+      (forall y, In y (firstn m rest) -> fat_get E v 0 y = 0) /\
+      (forall y, In y (skipn m rest) -> fat_get E v 0 y = fat_get D v 0 y)) \/
+   (l = rest ++ [c] /\ fat_get E v 0 c = 0 /\ forall y, In y rest -> fat_get E v 0 y = 0)).
+Proof.
+  intros L Hch Hl HE.
+  assert (HinF : forall x, x < v_clusters v + 2 -> in_fat v fsz x) by (intros x Hx; exact (layout_sector v fsz x L Hx)).
+  pose proof (chain_of_sound D v fuel c _ Hch) as Hsound.
+  pose proof (chain_of_nodup D v fuel c _ Hch) as Hnd.
+  inversion Hnd as [|? ? Hcni Hndr]; subst.
+  destruct (Hsound c (or_introl eq_refl)) as (C1 & C2 & _).
+  assert (Hlsub : forall x, In x l -> In x (c :: rest)).
+  { intros x Hx. destruct Hl as [->| ->]; [right; exact Hx|].
+    apply in_app_iff in Hx. destruct Hx as [Hx|[<-|[]]]; [right; exact Hx|left; reflexivity]. }
+  assert (Hout : forall x, in_fat v fsz x -> ~ In x (c :: rest) -> fat_get E v 0 x = fat_get D v 0 x).
+  { intros x Hx Hni. rewrite (HE x Hx). destruct j0 as [|m]; [reflexivity|].
+    rewrite upd_after_cut.
+    rewrite existsb_notIn by (intros Hin; apply Hni, Hlsub; exact (firstn_In _ _ _ Hin)).
+    destruct (N.eqb_spec x c) as [->|_]; [exfalso; apply Hni; left; reflexivity|reflexivity]. }
+  split; [exact Hout|]. split.
+  { intros c1 f1 ch1 H1 Hdis. apply (chain_of_frame D); [exact H1|].
+    intros x Hx. destruct (chain_of_sound D v f1 c1 ch1 H1 x Hx) as (_ & X2 & _).
+    exact (Hout x (HinF x X2) (Hdis x Hx)). }
+  destruct j0 as [|m].
+  - (* nothing written to the first copy yet *)
+    left. apply (chain_of_frame D); [exact Hch|]. intros x Hx.
+    destruct (Hsound x Hx) as (_ & X2 & _). rewrite (HE x (HinF x X2)). reflexivity.
+  - assert (Hstage : forall x, in_fat v fsz x ->
+              fat_get E v 0 x = if existsb (N.eqb x) (firstn m l) then 0
+                                else if x =? c then enc v CL_EOF else fat_get D v 0 x).
+    { intros x Hx. rewrite (HE x Hx). apply upd_after_cut. }
+    destruct (le_lt_dec m (length rest)) as [Hm|Hm].
+    + (* c is the end of its chain; the first m clusters of rest are free *)
+      assert (Efl : firstn m l = firstn m rest).
+      { destruct Hl as [->| ->]; [reflexivity|]. rewrite firstn_app.
+        replace (m - length rest)%nat with 0%nat by lia. cbn [firstn]. apply app_nil_r. }
+      rewrite Efl in Hstage.
+      assert (Ec : fat_get E v 0 c = enc v CL_EOF).
+      { rewrite (Hstage c (HinF c C2)).
+        rewrite existsb_notIn by (intros Hin; apply Hcni; exact (firstn_In _ _ _ Hin)).
+        rewrite N.eqb_refl. reflexivity. }
+      right. left. destruct (eof_is_end v) as (Eb & Ee).
+      split; [apply chain_single; [exact C1|exact C2|rewrite Ec; exact Eb|rewrite Ec; exact Ee]|].
+      split; [exact Ec|]. exists m. split; [exact Hm|]. split.
+      * intros y Hy. destruct (Hsound y (or_intror (firstn_In _ _ _ Hy))) as (_ & Y2 & _).
+        rewrite (Hstage y (HinF y Y2)). rewrite (proj2 (existsb_In y _) Hy). reflexivity.
+      * intros y Hy. pose proof (skipn_In _ _ _ Hy) as Hyr.
+        destruct (Hsound y (or_intror Hyr)) as (_ & Y2 & _).
+        rewrite (Hstage y (HinF y Y2)).
+        rewrite existsb_notIn by (exact (nodup_firstn_skipn rest m y Hndr Hy)).
+        destruct (N.eqb_spec y c) as [->|_]; [contradiction|reflexivity].
+    + (* only possible for free: everything is free *)
+      destruct Hl as [->| ->].
+      * (* l = rest: firstn m rest = rest, still the middle case *)
+        rewrite firstn_all2 in Hstage by lia.
+        assert (Ec : fat_get E v 0 c = enc v CL_EOF).
+        { rewrite (Hstage c (HinF c C2)). rewrite existsb_notIn by exact Hcni. rewrite N.eqb_refl. reflexivity. }
+        right. left. destruct (eof_is_end v) as (Eb & Ee).
+        split; [apply chain_single; [exact C1|exact C2|rewrite Ec; exact Eb|rewrite Ec; exact Ee]|].
+        split; [exact Ec|]. exists (length rest). split; [lia|]. rewrite firstn_all, skipn_all. split.
+        -- intros y Hy. destruct (Hsound y (or_intror Hy)) as (_ & Y2 & _).
+           rewrite (Hstage y (HinF y Y2)). rewrite (proj2 (existsb_In y _) Hy). reflexivity.
+        -- intros y [].
+      * rewrite firstn_all2 in Hstage by (rewrite app_length; cbn [length]; lia).
+        right. right. split; [reflexivity|]. split.
+        -- rewrite (Hstage c (HinF c C2)).
+           rewrite (proj2 (existsb_In c _)) by (apply in_app_iff; right; left; reflexivity). reflexivity.
+        -- intros y Hy. destruct (Hsound y (or_intror Hy)) as (_ & Y2 & _).
+           rewrite (Hstage y (HinF y Y2)).
+           rewrite (proj2 (existsb_In y _)) by (apply in_app_iff; left; exact Hy). reflexivity.
+Qed.
+
+Lemma st_ok_len vi v fsz s : st_ok vi v fsz s -> fat_len_ok v fsz (s_disk s).
+Proof. intros (_ & _ & _ & H). exact H. Qed.
+
+Lemma chain_in_fat v fsz d c f rest : fat_layout v fsz -> chain_of d v c f = Some (c :: rest) ->
+  in_fat v fsz c /\ Forall (fun yx : N * N => in_fat v fsz (fst yx)) (freeing rest) /\
+  Forall (fun yx : N * N => in_fat v fsz (fst yx)) (freeing (rest ++ [c])).
+Proof.
+  intros L H. pose proof (in_fat_chain v fsz d c f _ L H) as F.
+  change (freeing (c :: rest)) with ((c, CL_EMPTY) :: freeing rest) in F.
+  inversion F as [|? ? Fc Fr]; subst. cbn [fst] in Fc.
+  split; [exact Fc|]. split; [exact Fr|].
+  rewrite freeing_app. apply Forall_app. split; [exact Fr|]. constructor; [exact Fc|constructor].
+Qed.
+
+(* ---- C10, truncate_cluster_chain on the chain c :: rest: EVERY prefix ---- *)
+(* For every prefix of the writes: the chain from c is read as c :: rest (nothing on the
+   medium yet) or as [c] (c marked end-of-chain FIRST); in the second case the first m
+   clusters of rest are free and the others still hold their old entries - allocated but
+   referenced by no live chain: lost clusters, the permitted residue.  Chains disjoint from
+   c :: rest, every FAT entry outside c :: rest and every block outside the FAT are unchanged. *)
+Theorem C10_truncate_prefix_chains vi v fsz s c rest fuel :
+  fat_layout v fsz -> st_ok vi v fsz s ->
+  chain_of (s_disk s) v c fuel = Some (c :: rest) ->
+  let D := s_disk s in
+  let us := trunc_updates c rest in
+  let ws := fat_updates v D us in
+  exists s', truncate_cluster_chain vi c s = (Ok tt, s') /\ tr_ext s s' ws /\
+  forall k, let Dk := prefix_disk ws k D in
+  exists j0 j1,
+    (j1 <= j0 /\ j0 <= j1 + 1 /\ j0 <= length us)%nat /\
+    (forall x, in_fat v fsz x -> fat_get Dk v 0 x = upd_after v (firstn j0 us) x (fat_get D v 0 x)) /\
+    (fat_mirrored D v fsz ->
+       forall x, in_fat v fsz x -> fat_get Dk v 1 x = upd_after v (firstn j1 us) x (fat_get D v 0 x)) /\
+    (forall x, in_fat v fsz x -> ~ In x (c :: rest) -> fat_get Dk v 0 x = fat_get D v 0 x) /\
+    (forall c1 f1 ch1, chain_of D v c1 f1 = Some ch1 -> (forall x, In x ch1 -> ~ In x (c :: rest)) ->
+       chain_of Dk v c1 f1 = Some ch1) /\
+    (chain_of Dk v c fuel = Some (c :: rest) \/
+     (chain_of Dk v c 1 = Some [c] /\ fat_get Dk v 0 c = enc v CL_EOF /\
+      exists m, (m <= length rest)%nat /\
+        (forall y, In y (firstn m rest) -> fat_get Dk v 0 y = 0) /\
+        (forall y, In y (skipn m rest) -> fat_get Dk v 0 y = fat_get D v 0 y))) /\
+    (forall j, non_fat v fsz j -> disk_get Dk j = disk_get D j).
+Proof.
+  intros L Hst Hch D us ws.
+  destruct (truncate_cluster_chain_effect vi v fsz s c rest fuel L Hst Hch) as (s' & Hrun & Heff).
+  exists s'. split; [exact Hrun|]. split; [exact (te_trace _ _ _ _ _ _ _ Heff)|].
+  intros k Dk.
+  pose proof (st_ok_len vi v fsz s Hst) as Hlen.
+  destruct (chain_in_fat v fsz D c fuel rest L Hch) as (Fc & Fr & _).
+  assert (Hus : Forall (fun yx : N * N => in_fat v fsz (fst yx)) us).
+  { unfold us, trunc_updates. destruct rest; [constructor|]. constructor; [exact Fc|exact Fr]. }
+  destruct (fat_updates_prefix v fsz D us k L Hlen Hus) as (j0 & j1 & Hj & G0 & G1 & G2 & _).
+  fold ws in G0, G1, G2. fold Dk in G0, G1, G2.
+  exists j0, j1. split; [exact Hj|]. split; [exact G0|]. split; [exact G1|].
+  destruct rest as [|n tl].
+  - (* nothing to cut: no write at all *)
+    assert (Esame : forall x, in_fat v fsz x -> fat_get Dk v 0 x = fat_get D v 0 x).
+    { intros x Hx. rewrite (G0 x Hx). unfold us, trunc_updates. rewrite firstn_nil. reflexivity. }
+    split; [intros x Hx _; exact (Esame x Hx)|].
+    assert (Hfr : forall c1 f1 ch1, chain_of D v c1 f1 = Some ch1 -> chain_of Dk v c1 f1 = Some ch1).
+    { intros c1 f1 ch1 H1. apply (chain_of_frame D); [exact H1|]. intros x Hx.
+      destruct (chain_of_sound D v f1 c1 ch1 H1 x Hx) as (_ & X2 & _).
+      exact (Esame x (layout_sector v fsz x L X2)). }
+    split; [intros c1 f1 ch1 H1 _; exact (Hfr c1 f1 ch1 H1)|].
+    split; [left; exact (Hfr _ _ _ Hch)|exact G2].
+  - assert (HE : forall x, in_fat v fsz x ->
+              fat_get Dk v 0 x = upd_after v (firstn j0 ((c, CL_EOF) :: freeing (n :: tl))) x (fat_get D v 0 x))
+      by exact G0.
+    destruct (cut_stage_chains v fsz D Dk c (n :: tl) fuel (n :: tl) j0 L Hch (or_introl eq_refl) HE)
+      as (Hout & Hoth & Hthis).
+    split; [exact Hout|]. split; [exact Hoth|]. split; [|exact G2].
+    destruct Hthis as [H1|[H2|(Habs & _)]]; [left; exact H1|right; exact H2|].
+    exfalso. apply (f_equal (@length N)) in Habs. rewrite app_length in Habs. cbn [length] in Habs. lia.
+Qed.
+
+(* ---- C10, free_cluster_chain (delete) on the chain c :: rest: EVERY prefix ---- *)
+(* As truncate, and the LAST update frees c: for every prefix the chain from c reads c :: rest,
+   or [c] with a freed prefix of rest, or c and all of rest are free.  (The directory slot
+   was marked deleted before: see delete_entry_before_free below.) *)
+Theorem C10_free_prefix_chains vi v fsz s c rest fuel :
+  fat_layout v fsz -> st_ok vi v fsz s ->
+  chain_of (s_disk s) v c fuel = Some (c :: rest) ->
+  let D := s_disk s in
+  let us := trunc_updates c rest ++ [(c, CL_EMPTY)] in
+  let ws := fat_updates v D us in
+  exists s', free_cluster_chain vi c s = (Ok tt, s') /\ tr_ext s s' ws /\
+  forall k, let Dk := prefix_disk ws k D in
+  exists j0 j1,
+    (j1 <= j0 /\ j0 <= j1 + 1 /\ j0 <= length us)%nat /\
+    (forall x, in_fat v fsz x -> fat_get Dk v 0 x = upd_after v (firstn j0 us) x (fat_get D v 0 x)) /\
+    (fat_mirrored D v fsz ->
+       forall x, in_fat v fsz x -> fat_get Dk v 1 x = upd_after v (firstn j1 us) x (fat_get D v 0 x)) /\
+    (forall x, in_fat v fsz x -> ~ In x (c :: rest) -> fat_get Dk v 0 x = fat_get D v 0 x) /\
+    (forall c1 f1 ch1, chain_of D v c1 f1 = Some ch1 -> (forall x, In x ch1 -> ~ In x (c :: rest)) ->
+       chain_of Dk v c1 f1 = Some ch1) /\
+    (chain_of Dk v c fuel = Some (c :: rest) \/
+     (chain_of Dk v c 1 = Some [c] /\ fat_get Dk v 0 c = enc v CL_EOF /\
+      exists m, (m <= length rest)%nat /\
+        (forall y, In y (firstn m rest) -> fat_get Dk v 0 y = 0) /\
+        (forall y, In y (skipn m rest) -> fat_get Dk v 0 y = fat_get D v 0 y)) \/
+     (fat_get Dk v 0 c = 0 /\ forall y, In y rest -> fat_get Dk v 0 y = 0)) /\
+    (forall j, non_fat v fsz j -> disk_get Dk j = disk_get D j).
+Proof.
+  intros L Hst Hch D us ws.
+  destruct (free_cluster_chain_effect vi v fsz s c rest fuel L Hst Hch) as (s' & Hrun & Heff).
+  exists s'. split; [exact Hrun|]. split; [exact (fe_trace _ _ _ _ _ _ _ Heff)|].
+  intros k Dk.
+  pose proof (st_ok_len vi v fsz s Hst) as Hlen.
+  destruct (chain_in_fat v fsz D c fuel rest L Hch) as (Fc & Fr & Frc).
+  assert (Eus : us = match rest with [] => freeing [c] | _ => (c, CL_EOF) :: freeing (rest ++ [c]) end).
+  { unfold us, trunc_updates. destruct rest; [reflexivity|]. rewrite freeing_app. reflexivity. }
+  assert (Hus : Forall (fun yx : N * N => in_fat v fsz (fst yx)) us).
+  { rewrite Eus. destruct rest; [constructor; [exact Fc|constructor]|]. constructor; [exact Fc|exact Frc]. }
+  destruct (fat_updates_prefix v fsz D us k L Hlen Hus) as (j0 & j1 & Hj & G0 & G1 & G2 & _).
+  fold ws in G0, G1, G2. fold Dk in G0, G1, G2.
+  exists j0, j1. split; [exact Hj|]. split; [exact G0|]. split; [exact G1|].
+  destruct rest as [|n tl].
+  - (* a one-cluster chain: the only update frees c *)
+    assert (Hst0 : forall x, in_fat v fsz x ->
+              fat_get Dk v 0 x = if existsb (N.eqb x) (firstn j0 [c]) then 0 else fat_get D v 0 x).
+    { intros x Hx. rewrite (G0 x Hx), Eus, firstn_freeing. apply upd_after_freeing. }
+    assert (Hout : forall x, in_fat v fsz x -> x <> c -> fat_get Dk v 0 x = fat_get D v 0 x).
+    { intros x Hx Hne. rewrite (Hst0 x Hx). rewrite existsb_notIn; [reflexivity|].
+      intros Hin. apply firstn_In in Hin. destruct Hin as [E|[]]. congruence. }
+    split; [intros x Hx Hni; apply (Hout x Hx); intros ->; apply Hni; left; reflexivity|].
+    split.
+    { intros c1 f1 ch1 H1 Hdis. apply (chain_of_frame D); [exact H1|]. intros x Hx.
+      destruct (chain_of_sound D v f1 c1 ch1 H1 x Hx) as (_ & X2 & _).
+      apply (Hout x (layout_sector v fsz x L X2)). intros ->. apply (Hdis c Hx). left. reflexivity. }
+    split; [|exact G2].
+    destruct j0 as [|j0].
+    + left. apply (chain_of_frame D); [exact Hch|]. intros x [<-|[]]. rewrite (Hst0 c Fc). reflexivity.
+    + right. right. split; [|intros y []]. rewrite (Hst0 c Fc). cbn [firstn existsb]. rewrite N.eqb_refl. reflexivity.
+  - assert (HE : forall x, in_fat v fsz x ->
+              fat_get Dk v 0 x = upd_after v (firstn j0 ((c, CL_EOF) :: freeing ((n :: tl) ++ [c]))) x (fat_get D v 0 x)).
+    { intros x Hx. rewrite (G0 x Hx), Eus. reflexivity. }
+    destruct (cut_stage_chains v fsz D Dk c (n :: tl) fuel ((n :: tl) ++ [c]) j0 L Hch (or_intror eq_refl) HE)
+      as (Hout & Hoth & Hthis).
+    split; [exact Hout|]. split; [exact Hoth|]. split; [|exact G2].
+    destruct Hthis as [H1|[H2|(_ & H3)]]; [left; exact H1|right; left; exact H2|right; right; exact H3].
+Qed.
+
+(* delete_file_in_dir runs  delete_directory_entry ;;; free_cluster_chain : when it succeeds,
+   the whole of delete_directory_entry has returned (its block write is on the medium: the
+   trace only grows) in the state in which free_cluster_chain starts *)
+Lemma delete_entry_before_free vi dc sfn c s s' :
+  (delete_directory_entry vi dc sfn ;;; free_cluster_chain vi c) s = (Ok tt, s') ->
+  exists s1, delete_directory_entry vi dc sfn s = (Ok tt, s1) /\ free_cluster_chain vi c s1 = (Ok tt, s').
+Proof.
+  intros H. apply bind_inv in H. destruct H as ([] & s1 & H1 & H2). exists s1. split; assumption.
+Qed.
+
+(* ---- C09 frame for truncate / free: all their writes are FAT sectors ---- *)
+Theorem C09_frame_fat_updates v fsz D us k :
+  fat_layout v fsz -> fat_len_ok v fsz D -> Forall (fun yx => in_fat v fsz (fst yx)) us ->
+  (forall j, non_fat v fsz j -> disk_get (prefix_disk (fat_updates v D us) k D) j = disk_get D j) /\
+  (forall x b, 2 <= x -> In b (cluster_blocks v x) ->
+     disk_get (prefix_disk (fat_updates v D us) k D) b = disk_get D b).
+Proof.
+  intros L Hlen Hus.
+  destruct (fat_updates_prefix v fsz D us k L Hlen Hus) as (j0 & j1 & _ & _ & _ & G2 & _).
+  split; [exact G2|]. intros x b Hx Hb. apply G2. exact (cluster_block_non_fat v fsz x b L Hx Hb).
+Qed.
+
+(* ---- C09 in terms of file contents (PrRw.file_bytes: the bytes of the clusters of a chain) ---- *)
+(* a crash after ANY prefix of the writes of alloc_cluster (on behalf of whatever file or
+   directory) shows every chain of the old medium with exactly its old bytes; a chain that
+   does not end in prev is moreover still the same chain (C10_alloc_prefix_chains (a)) *)
+Theorem C09_frame_bytes_alloc vi v fsz prev zero s c s' :
+  alloc_pre s vi v fsz -> (forall p, prev = Some p -> p < v_clusters v + 2) ->
+  alloc_cluster vi prev zero s = (Ok c, s') ->
+  let D := s_disk s in
+  let ws := alloc_writes v D prev zero c in
+  tr_ext s s' ws /\
+  forall k c1 f1 ch1, chain_of D v c1 f1 = Some ch1 ->
+    PrRw.file_bytes (prefix_disk ws k D) v ch1 = PrRw.file_bytes D v ch1.
+Proof.
+  intros Hpre Hprev Hrun D ws.
+  destruct (C09_frame_alloc vi v fsz prev zero s c s' Hpre Hprev Hrun) as (T & H).
+  split; [exact T|]. intros k c1 f1 ch1 H1. destruct (H k) as (_ & _ & Hch).
+  apply PrRw.file_bytes_frame. intros x b Hx Hb. exact (Hch c1 f1 ch1 H1 x b Hx Hb).
+Qed.
+
+(* truncate / free (of any other file): every chain of data clusters keeps its bytes *)
+Theorem C09_frame_bytes_fat_updates v fsz D us k ch :
+  fat_layout v fsz -> fat_len_ok v fsz D -> Forall (fun yx => in_fat v fsz (fst yx)) us ->
+  Forall (fun x => 2 <= x) ch ->
+  PrRw.file_bytes (prefix_disk (fat_updates v D us) k D) v ch = PrRw.file_bytes D v ch.
+Proof.
+  intros L Hlen Hus Hch. apply PrRw.file_bytes_frame. intros x b Hx Hb.
+  rewrite Forall_forall in Hch.
+  exact (proj2 (C09_frame_fat_updates v fsz D us k L Hlen Hus) x b (Hch x Hx) Hb).
+Qed.
+
+Lemma updates_in_fat v fsz d c f rest : fat_layout v fsz -> chain_of d v c f = Some (c :: rest) ->
+  Forall (fun yx : N * N => in_fat v fsz (fst yx)) (trunc_updates c rest) /\
+  Forall (fun yx : N * N => in_fat v fsz (fst yx)) (trunc_updates c rest ++ [(c, CL_EMPTY)]).
+Proof.
+  intros L H. destruct (chain_in_fat v fsz d c f rest L H) as (Fc & Fr & _).
+  assert (F1 : Forall (fun yx : N * N => in_fat v fsz (fst yx)) (trunc_updates c rest)).
+  { unfold trunc_updates. destruct rest; [constructor|]. constructor; [exact Fc|exact Fr]. }
+  split; [exact F1|]. apply Forall_app. split; [exact F1|]. constructor; [exact Fc|constructor].
+Qed.
+
+(* C09 frame, all three FAT-changing operations at once, in terms of file contents: whatever
+   the operation is run for, after ANY prefix of its writes every chain keeps its bytes *)
+Theorem C09_frame vi v fsz s :
+  alloc_pre s vi v fsz ->
+  let D := s_disk s in
+  (forall prev zero c s',
+     (forall p, prev = Some p -> p < v_clusters v + 2) ->
+     alloc_cluster vi prev zero s = (Ok c, s') ->
+     forall k c1 f1 ch1, chain_of D v c1 f1 = Some ch1 ->
+       PrRw.file_bytes (prefix_disk (alloc_writes v D prev zero c) k D) v ch1 = PrRw.file_bytes D v ch1) /\
+  (forall c rest fuel, chain_of D v c fuel = Some (c :: rest) ->
+     forall k ch, Forall (fun x => 2 <= x) ch ->
+       PrRw.file_bytes (prefix_disk (fat_updates v D (trunc_updates c rest)) k D) v ch
+         = PrRw.file_bytes D v ch /\
+       PrRw.file_bytes (prefix_disk (fat_updates v D (trunc_updates c rest ++ [(c, CL_EMPTY)])) k D) v ch
+         = PrRw.file_bytes D v ch).
+Proof.
+  intros Hpre D. destruct (alloc_pre_disk s vi v fsz Hpre) as (L & Hlen). split.
+  - intros prev zero c s' Hprev Hrun k c1 f1 ch1 H1.
+    exact (proj2 (C09_frame_bytes_alloc vi v fsz prev zero s c s' Hpre Hprev Hrun) k c1 f1 ch1 H1).
+  - intros c rest fuel Hch k ch Hr.
+    destruct (updates_in_fat v fsz D c fuel rest L Hch) as (F1 & F2).
+    split; apply (C09_frame_bytes_fat_updates v fsz); assumption.
+Qed.
+
+(* ================================================================== 6b. make_dir (order only) *)
+(* PrOrder describes the writes of make_dir by block number only (no contents), so the medium
+   after a prefix cannot be computed; what follows for every prefix of the block numbers: the
+   write of the parent-directory block that holds the new entry is in no proper prefix, and a
+   prefix that contains it contains the FAT sector(s) of the new cluster and all its blocks *)
+Theorem C10_make_dir_prefix_order vi v parent sfn att s s' :
+  PrOrder.good s -> nth_error (s_vols s) vi = Some v ->
+  make_dir vi parent sfn att s = (Ok tt, s') ->
+  exists before pblk c start,
+    PrOrder.steps s s' (before ++ [pblk]) /\
+    (forall s0, cluster_to_block v c s0 = (Ok start, s0)) /\
+    forall k,
+      ((k <= length before)%nat /\ firstn k (before ++ [pblk]) = firstn k before) \/
+      ((length before < k)%nat /\ firstn k (before ++ [pblk]) = before ++ [pblk] /\
+       (forall x, In x (PrOrder.fat_sectors v c) -> In x before) /\
+       (forall j, j < v_spc v -> In (start + j) before)).
+Proof.
+  intros Hg Hv H.
+  destruct (PrOrder.C10_make_dir_parent_last vi v parent sfn att s s' Hg Hv H)
+    as (before & pblk & S & c & start & Hs & Hf & Hb).
+  exists before, pblk, c, start. split; [exact S|]. split; [exact Hs|].
+  intros k. destruct (le_lt_dec k (length before)) as [Hk|Hk].
+  - left. split; [exact Hk|]. rewrite firstn_app. replace (k - length before)%nat with 0%nat by lia.
+    cbn [firstn]. apply app_nil_r.
+  - right. split; [exact Hk|]. split; [|split; [exact Hf|exact Hb]].
+    apply firstn_all2. rewrite app_length. cbn [length]. lia.
+Qed.
+
+(* the same on the logged writes WITH their contents (rev (dwr new), oldest first), replayed on
+   any medium D: before the last write the block pblk is as on D unless an earlier write of the
+   operation targets the same block number (the parent directory was grown and pblk lies in its
+   new, zeroed cluster); the complete replay is reached only with the last write *)
+Lemma wr1_dwr l : flat_map PrOrder.wr1 l = map fst (dwr l).
+Proof.
+  induction l as [|x l IH]; [reflexivity|]. destruct x; cbn [flat_map PrOrder.wr1 dwr map fst app]; rewrite IH; reflexivity.
+Qed.
+
+Lemma dwr_rev l : dwr (rev l) = rev (dwr l).
+Proof.
+  induction l as [|x l IH]; [reflexivity|]. cbn [rev]. rewrite dwr_app, IH.
+  destruct x; cbn [dwr rev]; rewrite ?app_nil_r; reflexivity.
+Qed.
+
+Theorem C10_make_dir_prefix vi v parent sfn att s s' :
+  PrOrder.good s -> nth_error (s_vols s) vi = Some v ->
+  make_dir vi parent sfn att s = (Ok tt, s') ->
+  exists (new : list devcall) (before : list N) (pblk c start : N),
+    s_trace s' = new ++ s_trace s /\
+    (forall s0, cluster_to_block v c s0 = (Ok start, s0)) /\
+    let ws := rev (dwr new) in
+    map fst ws = before ++ [pblk] /\
+    (forall x, In x (PrOrder.fat_sectors v c) -> In x before) /\
+    (forall j, j < v_spc v -> In (start + j) before) /\
+    forall D k,
+      ((k <= length before)%nat -> map fst (firstn k ws) = firstn k before /\
+         (~ In pblk before -> disk_get (prefix_disk ws k D) pblk = disk_get D pblk)) /\
+      ((length before < k)%nat -> prefix_disk ws k D = apply_ws ws D).
+Proof.
+  intros Hg Hv H.
+  destruct (PrOrder.C10_make_dir_parent_last vi v parent sfn att s s' Hg Hv H)
+    as (before & pblk & ((new & T & W) & _) & c & start & Hs & Hf & Hb).
+  exists new, before, pblk, c, start. split; [exact T|]. split; [exact Hs|].
+  assert (Ew : map fst (rev (dwr new)) = before ++ [pblk]).
+  { rewrite <- W. unfold PrOrder.writes_of. rewrite wr1_dwr, dwr_rev. reflexivity. }
+  cbv zeta. split; [exact Ew|]. split; [exact Hf|]. split; [exact Hb|].
+  intros D k. split.
+  - intros Hk.
+    assert (E : map fst (firstn k (rev (dwr new))) = firstn k before).
+    { rewrite <- firstn_map, Ew, firstn_app. replace (k - length before)%nat with 0%nat by lia.
+      cbn [firstn]. apply app_nil_r. }
+    split; [exact E|]. intros Hni. apply prefix_disk_other. rewrite E.
+    intros Hin. apply Hni. exact (firstn_In _ _ _ Hin).
+  - intros Hk. apply prefix_disk_ge.
+    rewrite <- (map_length fst), Ew, app_length. cbn [length]. lia.
+Qed.
+
+(* ================================================================== 7. examples *)
+(* the hypotheses of C10_alloc_prefix_chains are satisfiable: PrChain's FAT16 volume with the
+   chain 3 -> 4 -> 7; a cluster is allocated behind 7 with zeroing: cluster 9, six writes
+   (sectors 11, 13; blocks 44, 45; sectors 11, 13).  After 0..4 writes the chain reads
+   [3;4;7], after 5 or 6 writes [3;4;7;9], and then both blocks of cluster 9 are zero *)
+Example alloc_prefix_example :
+  alloc_pre exc_state 0 exc_vol 2 /\ fat_fits exc_vol /\ fat_mirrored (s_disk exc_state) exc_vol 2 /\
+  chain_of (s_disk exc_state) exc_vol 3 10 = Some ([3; 4] ++ [7]) /\
+  (exists s', alloc_cluster 0 (Some 7) true exc_state = (Ok 9, s')) /\
+  let ws := alloc_writes exc_vol (s_disk exc_state) (Some 7) true 9 in
+  map fst ws = [11; 13; 44; 45; 11; 13] /\
+  map (fun k => chain_of (prefix_disk ws k (s_disk exc_state)) exc_vol 3 10) [0; 1; 2; 3; 4; 5; 6]%nat
+  = [Some [3; 4; 7]; Some [3; 4; 7]; Some [3; 4; 7]; Some [3; 4; 7]; Some [3; 4; 7];
+     Some [3; 4; 7; 9]; Some [3; 4; 7; 9]] /\
+  map (fun k => fat_get (prefix_disk ws k (s_disk exc_state)) exc_vol 0 9) [0; 1; 5]%nat = [0; 65535; 65535] /\
+  map (fun k => fat_get (prefix_disk ws k (s_disk exc_state)) exc_vol 1 9) [1; 2]%nat = [0; 65535] /\
+  disk_get (prefix_disk ws 5 (s_disk exc_state)) 44 = zero_block /\
+  disk_get (prefix_disk ws 5 (s_disk exc_state)) 45 = zero_block.
+Proof.
+  destruct chain_pre_example as (Hpre & Hm & Hch).
+  split; [exact Hpre|]. split; [unfold fat_fits; vm_compute; discriminate|]. split; [exact Hm|].
+  split; [exact Hch|]. split.
+  { destruct (alloc_cluster 0 (Some 7) true exc_state) as [o s'] eqn:E.
+    assert (Eo : o = Ok 9) by (apply (f_equal fst) in E; vm_compute in E; symmetry; exact E).
+    subst o. exists s'. reflexivity. }
+  vm_compute. repeat split; reflexivity.
+Qed.
+
+(* and of the truncate / free theorems: chain_pre_example; truncating at 3 writes sector 11
+   and its copy 13 three times: after 0 writes the chain is [3;4;7], after 1..6 it is [3] *)
+Example truncate_prefix_example :
+  fat_layout exc_vol 2 /\ st_ok 0 exc_vol 2 exc_state /\
+  chain_of (s_disk exc_state) exc_vol 3 10 = Some (3 :: [4; 7]) /\
+  let ws := fat_updates exc_vol (s_disk exc_state) (trunc_updates 3 [4; 7]) in
+  map fst ws = [11; 13; 11; 13; 11; 13] /\
+  map (fun k => chain_of (prefix_disk ws k (s_disk exc_state)) exc_vol 3 10) [0; 1; 2; 3; 4; 5; 6]%nat
+  = [Some [3; 4; 7]; Some [3]; Some [3]; Some [3]; Some [3]; Some [3]; Some [3]] /\
+  map (fun k => (fat_get (prefix_disk ws k (s_disk exc_state)) exc_vol 0 4,
+                 fat_get (prefix_disk ws k (s_disk exc_state)) exc_vol 0 7)) [1; 3; 5]%nat
+  = [(7, 65535); (0, 65535); (0, 0)].
+Proof.
+  destruct chain_pre_example as ((Hst & L & _) & _ & Hch).
+  split; [exact L|]. split; [exact Hst|]. split; [exact Hch|].
+  vm_compute. repeat split; reflexivity.
+Qed.
+
+(* ================================================================== 8. assumptions *)
+Print Assumptions crash_disks.
+Print Assumptions crash_general.
+Print Assumptions crash_frame.
+Print Assumptions alloc_prefix_fat.
+Print Assumptions alloc_stage_chains.
+Print Assumptions C10_alloc_prefix_chains.
+Print Assumptions C10_alloc_prefix_chains_first.
+Print Assumptions C09_frame_alloc.
+Print Assumptions fat_updates_prefix.
+Print Assumptions C10_truncate_prefix_chains.
+Print Assumptions C10_free_prefix_chains.
+Print Assumptions delete_entry_before_free.
+Print Assumptions C09_frame_fat_updates.
+Print Assumptions C09_frame_bytes_alloc.
+Print Assumptions C09_frame_bytes_fat_updates.
+Print Assumptions C09_frame.
+Print Assumptions C10_make_dir_prefix_order.
+Print Assumptions C10_make_dir_prefix.
+Print Assumptions alloc_prefix_example.
+Print Assumptions truncate_prefix_example.
